@@ -1601,6 +1601,8 @@ class FnTranslator:
                         return T("Option", rt)
                     if m in ("saturating_sub", "saturating_add", "wrapping_add", "wrapping_sub", "min", "max", "pow"):
                         return rt
+                    if m == "cmp" and len(e[3]) == 1:
+                        return T("Ordering")
                 if rt[1] == "Option":
                     if m == "and_then" and e[3] and e[3][0][0] == "closure":
                         env2 = dict(env)
@@ -2072,6 +2074,8 @@ class FnTranslator:
                         return "(%s.sub %s %s)" % ("Nat" if is_nat(rt) else "N", r, args[0])
                     if m in ("min", "max"):
                         return "(%s.%s %s %s)" % ("Nat" if is_nat(rt) else "N", m, r, args[0])
+                    if m == "cmp":
+                        return "(%s.compare %s %s)" % ("Nat" if is_nat(rt) else "N", r, args[0])
                 if rt[1] == "Option":
                     if m == "is_some":
                         return "match %s with Some _ => true | None => false end" % r
@@ -3308,6 +3312,7 @@ MODULES = {
                      + [("CharSet", None, "is_singleton"), ("LoopRange", None, "is_point"),
                         ("BaseRegLan", None, "is_singleton"), ("BaseRegLan", None, "is_simple_pattern"),
                         ("RE", "HashConsed", "make")]
+                     + [("RE", "PartialEq", "eq"), ("RE", "Ord", "cmp"), ("RE", "PartialOrd", "partial_cmp")]
                      + [("BaseRegLan", None, f) for f in ("is_nullable", "concat_or_atomic", "is_all_chars", "is_full",
                                                           "is_range", "match_char_set", "deriv_class")],
         # is_atomic / is_singleton / is_simple_pattern feed only Display and dead code: no model counterpart, not translated
